@@ -307,14 +307,20 @@ def main():
     for p in problems:
         hit = None
         for f in findings:
-            if f["key"] == p["key"] or (f["key"].endswith("*") and p["key"].startswith(f["key"][:-1])):
+            pk = p["key"].replace(" ", "_")   # keys in known_findings.txt contain no spaces
+            if f["key"] == pk or (f["key"].endswith("*") and pk.startswith(f["key"][:-1])):
                 hit = f
         if hit:
             known_hit.append((hit, p))
         else:
             unlisted.append(p)
+    seen_findings = set()
     for f, p in known_hit:
-        print(f"KNOWN-FINDING: property={pid} {f['what']} [{p['key'][:120]}]")
+        if f["key"] in seen_findings:
+            continue
+        seen_findings.add(f["key"])
+        n_same = len([1 for g, _ in known_hit if g["key"] == f["key"]])
+        print(f"KNOWN-FINDING: property={pid} {f['what']} [{n_same} case(s) this run, e.g. {p['key'][:160]}]")
     violations = 0
     replay_path = None
     if unlisted:
